@@ -263,5 +263,6 @@ func VerifC06Regexps() map[string]*regexp.Regexp {
 		"realm@k8s.validAnnotationValueRegex":                validAnnotationValueRegex,
 		"realm@k8s.realmFmtRegexp":                           realmFmtRegexp,
 		"jwt_token@k8s.validJWTTokenAnnotationValueRegex":    validJWTTokenAnnotationValueRegex,
+		"limit_req_key@k8s.limitReqKeyRegexp":                limitReqKeyRegexp,
 	}
 }
